@@ -827,7 +827,7 @@ class Run:
             t = loop.create_task(self._actor(ai, ops))
             self.task_role[id(t)] = f'A{ai}'
             self.actor_tasks.append(t)
-        cap = float(sc.get('cap', 120.0))
+        cap = float(sc.get('cap', 400.0))
         # silence detection: nothing recorded for W virtual seconds
         while True:
             n = self.n
@@ -931,7 +931,7 @@ def run_scenario(sc: dict, workdir: str | None = None, keep_run: bool = False):
         shutil.rmtree(wd, ignore_errors=True)
         os.makedirs(wd, exist_ok=True)
     run = Run(sc, wd)
-    loop = VLoop(seed=seed, jitter=lp.get('jitter', 0.0), cpu=lp.get('cpu', 0.0), horizon=lp.get('horizon', 600.0), max_steps=lp.get('max_steps', 400_000), livelock=lp.get('livelock', 25_000))
+    loop = VLoop(seed=seed, jitter=lp.get('jitter', 0.0), cpu=lp.get('cpu', 0.0), horizon=lp.get('horizon', 1500.0), max_steps=lp.get('max_steps', 400_000), livelock=lp.get('livelock', 25_000))
     run.loop = loop
     loop.set_exception_handler(lambda l, ctx: run.rec('loop_exc', msg=str(ctx.get('message'))[:200], exc=type(ctx.get('exception')).__name__ if ctx.get('exception') else None))
     asyncio.set_event_loop(loop)
